@@ -185,10 +185,13 @@ def stepLine (d : D) (t : Toks) : D × List String :=
   | "req" :: _ =>
     match parseReq t, d.lt, d.store with
     | some spec, some lt, some s =>
-      if d.reqs.any (fun e => e.1 == spec.id) then (d, bad3)
+      -- the same request id again is accepted once the previous response under it has ended
+      let busy := d.reqs.any fun e => e.1 == spec.id && (match e.2.2 with | .paused _ => true | .done => false)
+      if busy then (d, bad3)
       else
         let (p', txns, ph) := startRequest s lt d.p spec.id spec.hook spec.ext spec.stop
-        let d1 := { d with p := p', started := true, reqs := d.reqs ++ [(spec.id, spec.stop, ph)] }
+        let others := d.reqs.filter (fun e => e.1 != spec.id)
+        let d1 := { d with p := p', started := true, reqs := others ++ [(spec.id, spec.stop, ph)] }
         emit d1 s txns
     | _, _, _ => (d, bad3)
   | ["resume", id] =>
@@ -203,6 +206,18 @@ def stepLine (d : D) (t : Toks) : D × List String :=
         | some (_, _, .done) => emit d s []
     | _, _ => (d, bad3)
   | "resume" :: _ => (d, bad3)
+  | ["rcancel", id] =>
+    -- a cancel request for a paused response: `ClearRequest` (FinishTracking), nothing on the wire
+    match id.toNat?, d.store with
+    | some id, some s =>
+      if !d.started then (d, bad3)
+      else match d.reqs.find? (fun e => e.1 == id) with
+        | none => (d, bad3)
+        | some (_, _, .paused _) =>
+          emit { d with p := (d.p.finishTracking id).1, reqs := setPhase d.reqs id .done } s []
+        | some (_, _, .done) => emit d s []
+    | _, _ => (d, bad3)
+  | "rcancel" :: _ => (d, bad3)
   | _ => (d, ["bad-op"])
 
 def handler (ops : List Toks) : List String :=
